@@ -585,7 +585,10 @@ func (fr *Frame) convert(x *ssa.Convert, st *State, g *Term) Val {
 		c.declareFun("gstr.bytes", []Sort{SStr}, ArrSort(SInt, SInt))
 		r := c.allocRef(st, g, "strbytes."+x.Name())
 		en := c.elemName(SInt)
-		c.heapSet(st, en, tStore(c.heapGet(st, en), r, app(ArrSort(SInt, SInt), "gstr.bytes", v.T)))
+		barr := app(ArrSort(SInt, SInt), "gstr.bytes", v.T)
+		c.heapSet(st, en, c.sto(c.heapGet(st, en), r, barr))
+		// the content of the new slice is the string itself
+		c.assumeG(g, tEq(c.bytesContentOf(barr, intLit(0), app(SInt, "gstr.len", v.T)), v.T))
 		return tv(mk(SSlice, fmt.Sprintf("(mk-slice %s 0 (gstr.len %s))", r.S, v.T.S)))
 	}
 	if _, ok := from.(*types.Slice); ok && tok && tb.Info()&types.IsString != 0 {
